@@ -36,7 +36,7 @@ type Graph struct {
 	addrTook []*ssa.Function
 	named    []*types.Named // named types declared in repo packages
 	// Tables: package-level map[K]func variables -> functions stored in them by init, with constant keys.
-	Tables map[*ssa.Global][]TableEntry
+	Tables     map[*ssa.Global][]TableEntry
 	fieldTypes map[*types.Var]*fieldTypeInfo
 	// tblBind: while a callee is expanded for one call site, its parameters that receive a dispatch table (a load of a
 	// package-level table) are bound to that table, so that `param[key](…)` resolves to the members of that table only.
